@@ -558,7 +558,7 @@ pub fn run(ctx: &Ctx) {
     ctx.run_corpus::<TcpCase>("tcp", check_tcp);
     ctx.run_corpus::<TlsCase>("tls", check_tls);
     ctx.run_random(
-        Part::new("tcp", RULE_TCP, ctx.tier.scale(20_000, 8)).floors(&[("closed-before-live", 0.05), ("two-live", 0.1), ("resolver-bypassed", 0.3), ("resolution-error", 0.1), ("preset+ip-literal", 0.1)]).shrink_iters(2000),
+        Part::new("tcp", RULE_TCP, ctx.tier.scale(20_000, 8)).floors(&[("closed-before-live", 0.03), ("two-live", 0.1), ("resolver-bypassed", 0.3), ("resolution-error", 0.1), ("preset+ip-literal", 0.1)]).shrink_iters(2000),
         tcp_strategy,
         check_tcp,
     );
